@@ -26,6 +26,7 @@ import (
 	"golang.org/x/tools/go/ssa/ssautil"
 
 	"verif/engine/interp"
+	"verif/engine/sym"
 )
 
 const (
@@ -346,6 +347,10 @@ type harnessReport struct {
 }
 
 func main() {
+	if v := os.Getenv("SYMGO_SLOWQ"); v != "" {
+		ms, _ := strconv.Atoi(v)
+		sym.SlowQuery = time.Duration(ms) * time.Millisecond
+	}
 	if len(os.Args) < 2 {
 		fmt.Fprintln(os.Stderr, "usage: symgo check <ID> quick|thorough | run <pkg> <func> | list")
 		os.Exit(2)
